@@ -283,10 +283,32 @@ def cases(ctx):
     for i in range(n):
         stop = ctx.rng.choice(['first', 'interior', 'last', 'any'])
         d = lensgen.gen_lens(ctx.rng, stop=stop, allow_asphere=ctx.rng.random() < 0.2)
-        if d['surfaces'][0]['thickness'] != 'inf' and ctx.rng.random() < 0.25:
+        if d['surfaces'][0]['thickness'] != 'inf' and d['surfaces'][1]['material']['kind'] in ('ideal', 'catalog') \
+                and ctx.rng.random() < 0.35:
+            # (only when the first surface ends the object medium: behind a mirror or an air/air surface the immersion
+            #  medium would reach the image surface, which the factory declares as air - the immersed-image special case)
             # object immersed (water, oil, ...): the object-space index enters the numerical aperture and the invariant
             d['surfaces'][0]['material'] = {'kind': 'ideal', 'n': lensgen.dyadic(ctx.rng, 1.2, 1.7, 6)}
         out.append({'desc': d})
+        if ctx.rng.random() < 0.06:
+            # a folded system: the stop is the last powered surface, behind it only planes, one of them a fold mirror
+            # (negative gap after it) - the exit pupil is the image of the stop in that mirror
+            rng = ctx.rng
+            df = lensgen.gen_lens(rng, stop='last', allow_mirror=False, nsurf=rng.randint(1, 5))
+            img = df['surfaces'].pop()
+            last = df['surfaces'][-1]
+            last['material'] = {'kind': 'air'}
+            last['thickness'] = lensgen.dyadic(rng, 2, 40, 3)
+            extra = []
+            if rng.random() < 0.5:
+                extra.append({'radius': 'inf', 'material': {'kind': 'air'}, 'thickness': lensgen.dyadic(rng, 1, 20, 3)})
+            extra.append({'radius': 'inf', 'material': {'kind': 'mirror'}, 'thickness': -lensgen.dyadic(rng, 5, 60, 3)})
+            if rng.random() < 0.4:
+                extra.append({'radius': 'inf', 'material': {'kind': 'air'}, 'thickness': -lensgen.dyadic(rng, 1, 20, 3)})
+            df['surfaces'] += extra + [img]
+            for q, su in enumerate(df['surfaces']):
+                su['index'] = q
+            out.append({'desc': df})
         if ctx.rng.random() < 0.35:
             # the same lens queried, edited through the public setters, and queried again: results must follow
             # the *current* prescription (stale caches, in-place aliasing)
